@@ -6,6 +6,7 @@ import (
 	"fmt"
 	"os"
 	"path/filepath"
+	"regexp"
 	"sort"
 	"strconv"
 	"strings"
@@ -192,11 +193,29 @@ func assumeAxiom(st *State, db *ContractDB, name string) error {
 	if err != nil {
 		return fmt.Errorf("axiom %s: %v", name, err)
 	}
-	st.assume(t)
+	if st.vc != nil {
+		st.axioms = append(st.axioms, axiomTerm{name: name, term: t, syms: ufunSyms(t)})
+	} else {
+		st.assume(t)
+	}
 	if !ax.IsLemma {
 		st.g.note("axiom " + name + ": " + ax.Src)
 	}
 	return nil
+}
+
+var ufunRe = regexp.MustCompile(`\|U:[^|]+\|`)
+
+func ufunSyms(t string) []string {
+	seen := map[string]bool{}
+	var out []string
+	for _, m := range ufunRe.FindAllString(t, -1) {
+		if !seen[m] {
+			seen[m] = true
+			out = append(out, m)
+		}
+	}
+	return out
 }
 
 func cmdVC(args []string) int {
